@@ -413,6 +413,67 @@ def eval_form(item, rec):
 # level (a): direct calls
 # ------------------------------------------------------------------------------------------------
 
+
+# ------------------------------------------------------------------------------------------------
+# history independence: the type rule of an operator must not depend on what was analysed before
+# ------------------------------------------------------------------------------------------------
+
+HISTORY_SCRIPTS = [
+    "r := round(DS_N, 1);", "r := trunc(DS_N, 2);", "r := DS_N[calc x := round(Me_1, 2), y := trunc(Me_1, 1)];", "r := round(3.7, 1); q := trunc(3.7, 1);",
+    "r := DS_N[calc x := log(Me_1, 2), y := power(Me_1, 2), z := mod(Me_1, 3)];", "r := log(DS_N, 2); q := power(DS_N, 2); w := mod(DS_N, 3);",
+    "r := DS_S[calc x := substr(Me_1, 1, 2), y := instr(Me_1, \"a\", 1, 1), z := replace(Me_1, \"a\", \"b\")];", "r := substr(DS_S, 2); q := replace(DS_S, \"a\", \"b\");",
+    "r := DS_N[calc x := nvl(Me_1, 0), y := if Me_1 > 0 then 1 else 2, z := between(Me_1, 0, 5)];", "r := nvl(DS_N, 0);",
+    "r := cast(DS_N, integer); q := cast(DS_N, string); w := DS_N[calc x := cast(Me_1, boolean)];",
+    "r := DS_D[calc x := dateadd(Me_1, 1, \"M\"), y := getyear(Me_1), z := datediff(Me_1, Me_1)];", "r := DS_N[calc x := random(Me_1, 2)];",
+    "r := sum(DS_N group by Id_1); q := count(DS_N group by Id_1); w := DS_N[aggr x := avg(Me_1) group by Id_1];",
+    "r := DS_N[calc x := rank(over (order by Id_1)), y := sum(Me_1 over (order by Id_1))];",
+]
+
+
+def history_item(item, rec):
+    """runs in its own freshly forked worker: probes, then a history of other analyses, then the same probes again"""
+    tab, tabc, fwd, rev = ctx()
+    V = harness.boot()
+    forms = item
+    probes = []
+    for f in forms:
+        if f.get("n", 9) > 2:
+            continue
+        for lv in f["levels"]:
+            if set(lv["kinds"]) - set("scd"):
+                continue
+            for t in ("Number", "Integer", "String"):
+                if t in tab.all_types:
+                    probes.append((f["id"], lv["label"], M.build_case(lv["kinds"], lv["template"], (t,) * f["n"], lv.get("cwrap", M.CWRAP_CALC))))
+
+    # operand-only forms first: their first observation is taken before any parameterised form has been analysed
+    order = {f["id"]: f["n"] for f in forms}
+    probes.sort(key=lambda p: (order[p[0]], p[0], p[1]))
+
+    def observe_all():
+        return [M.observe(M.run_case(c), c["where"], rev) for _, _, c in probes]
+    first = observe_all()
+    H = harness
+    structs = H.structures(
+        H.structure("DS_N", [H.comp("Id_1", "Integer", "Identifier"), H.comp("Me_1", "Number", "Measure")]),
+        H.structure("DS_S", [H.comp("Id_1", "Integer", "Identifier"), H.comp("Me_1", "String", "Measure")]),
+        H.structure("DS_D", [H.comp("Id_1", "Integer", "Identifier"), H.comp("Me_1", "Date", "Measure")]))
+    ran = 0
+    for sc in HISTORY_SCRIPTS:
+        out = harness.call(V.semantic_analysis, sc, structs)
+        ran += out[0] == "ok"
+    if ran < len(HISTORY_SCRIPTS) // 2:
+        rec.tool_error("history scripts mostly rejected (%d of %d accepted): the history space is not exercised" % (ran, len(HISTORY_SCRIPTS)))
+    second = observe_all()
+    for (fid, lab, case), a, b in zip(probes, first, second):
+        same = list(a) == list(b)
+        rec.case(("history", fid, lab, same), "history-independent" if same else "history-dependent", nontrivial=a[0] == "ok")
+        if not same:
+            rec.violation("C11:history:%s:type-rule-depends-on-earlier-analyses" % fid,
+                          "%s at level %s: %r first analysed as %s, after analysing other scripts (parameterised round/trunc/log/substr/cast/...) as %s" % (
+                              fid, lab, case["script"], list(a), list(b)), {"relation": "history", "form_id": fid})
+
+
 def direct(fn, *a):
     out = harness.call(fn, *a)
     if out[0] == "ok":
@@ -594,6 +655,9 @@ class Check:
         items.sort(key=lambda it: -len(it["tuples"]) * len(it["form"]["levels"]))
         items = harness.seeded_order(items, seed) if seed else items
         harness.pmap(eval_form, items, rec)
+        # history independence (own worker process, so the probes really start from a fresh engine state)
+        hforms, _ = discover_forms("thorough", harness.Recorder())      # includes the parameterised operators in every tier
+        harness.pmap(history_item, [[f for f in hforms if f.get("n", 9) <= 2], []], rec, workers=2)
         # level (a) last: for a defect visible at both levels the replay kept is the script (public API) one
         nclasses, nsigs = level_a(rec, seed)
         for u in unrendered:
@@ -621,6 +685,11 @@ class Check:
         harness.boot()
         tab, tabc, fwd, rev = ctx()
         rel = data["relation"]
+        if rel == "history":
+            rec = harness.Recorder()
+            forms, _ = discover_forms("thorough", rec)
+            history_item([f for f in forms if f["id"] == data["form_id"]], rec)
+            return bool(rec.violations)
         if rel == "table-cell":
             return (data["to"] in tabc.P(data["from"])) != (data["to"] in tab.P(data["from"]))
         if rel == "docs-key-rule":
